@@ -22,7 +22,8 @@ RULE = (
     "real process on a loopback port; the xandikos.wsgi module in a fresh process behind WellknownRedirector and a SCRIPT_NAME mount} x restarts {0, 1, 3}. A discovery client written for the "
     "harness starts at /.well-known/caldav, /.well-known/carddav and the root URL, follows redirects, reads current-user-principal, then calendar-home-set / addressbook-home-set / resourcetype of "
     "the principal, then lists the home sets with Depth 1, using only hrefs the server returned. It must reach >=1 calendar and >=1 address book; an event and a contact stored before the first "
-    "restart must be served with unchanged ETag and bytes after every restart and the set of collections must not change across restarts. Quick: 96 configurations (all with >=1 restart) sampled with the seed; "
+    "restart must be served with unchanged ETag and bytes after every restart and the set of collections must not change across restarts. Before the restarts the client also creates a collection of one type in a home set, deletes it and creates a collection of the "
+    "other type at the same URL (both orders): discovery must list what exists now, with its type. Quick: 96 configurations (all with >=1 restart) sampled with the seed; "
     "thorough: all 288. Non-trivial: non-root prefix or nested principal, with >=1 restart; distinct by configuration."
 )
 
@@ -380,6 +381,32 @@ def run_config(cfg):
                 if st != 200:
                     return fail("get-after-put-failed", f"GET {u!r} answered {st}")
                 before[u] = (h.get("etag"), b)
+            # a collection of one type replaced by a collection of the other type at the same URL: discovery must
+            # report what exists now, in the running server and after every restart
+            kinds = [("C:mkcalendar", None, "calendar"), ("D:mkcol", "<D:collection/><A:addressbook/>", "addressbook")]
+            if cfg.get("retype", "cal-to-ab") == "ab-to-cal":
+                kinds.reverse()
+            final_kind = kinds[1][2]
+            team = found[final_kind][1][0] + "team/"
+            for n, (root, rt, kind) in enumerate(kinds):
+                if root == "C:mkcalendar":
+                    st, h, b = srv.request("MKCALENDAR", team, [dav.XML_CT], dav.mkcol_body("C:mkcalendar", [("{DAV:}displayname", "Team")]))
+                else:
+                    st, h, b = srv.request("MKCOL", team, [dav.XML_CT], dav.mkcol_body("D:mkcol", [("{DAV:}resourcetype", ("xml", rt))]))
+                if st != 201:
+                    return fail("client-mkcol-failed", f"creating {kind} {team!r} answered {st} {b[:200]!r}")
+                now = discover(srv, starts[n % 3], trace)
+                other = "addressbook" if kind == "calendar" else "calendar"
+                if team not in now[kind][0] and kind == final_kind:
+                    return fail("retyped-collection-not-reached", f"{team!r} was created as {kind} (after a collection of the other type had been deleted at this URL: {n == 1}) but discovery reaches {now[kind][0]}")
+                if team in now[other][0]:
+                    return fail("retyped-collection-wrong-type", f"{team!r} was created as {kind} but is listed with resourcetype {other}")
+                if n == 0:
+                    st, h, b = srv.request("DELETE", team)
+                    if st not in (200, 204):
+                        return fail("client-delete-failed", f"DELETE {team!r} answered {st}")
+                else:
+                    found = now
             for k in range(cfg["restarts"]):
                 srv.stop()
                 flags = {"defaults": "defaults", "autocreate": "autocreate", "preexisting": "none"}[mode]
@@ -406,8 +433,8 @@ def run_config(cfg):
 def all_configs(thorough=False):
     prefixes = PREFIXES + (["/a/b", "/x/"] if thorough else [])
     restarts = RESTARTS + ([6] if thorough else [])
-    for p, pr, m, fe, r in itertools.product(prefixes, PRINCIPALS, MODES, FRONTENDS, restarts):
-        yield {"prefix": p, "principal": pr, "mode": m, "fe": fe, "restarts": r}
+    for i, (p, pr, m, fe, r) in enumerate(itertools.product(prefixes, PRINCIPALS, MODES, FRONTENDS, restarts)):
+        yield {"prefix": p, "principal": pr, "mode": m, "fe": fe, "restarts": r, "retype": ["cal-to-ab", "ab-to-cal"][(i // len(restarts)) % 2]}
 
 
 def shard(shard, configs):
